@@ -42,8 +42,8 @@ def specTrials (o : Obs) : Bool × String :=
 def spec (c : Case) (o : Obs) : Bool × String :=
   if c.trials > 1 then specTrials o else
   let classes := o.res.splitOn "/"
-  if o.hang != "-" || classes.contains "hang" then (false, s!"terminal did not return / deadlock ({o.hang})")
-  else if classes.contains "crash" || classes.contains "panic" then (false, s!"run ended with {o.res}")
+  if classes.contains "crash" || classes.contains "panic" then (false, s!"run ended with {o.res}")
+  else if o.hang != "-" || classes.contains "hang" then (false, s!"terminal did not return / deadlock ({o.hang})")
   else if o.leak != 0 then (false, s!"{o.leak} goroutines left after the terminal returned")
   else if c.rep > 1 then
     -- several materialisations of one stream value: every one must end, none may crash or leave goroutines; a
